@@ -41,6 +41,8 @@ type Program struct {
 	outEdges  map[*ssa.Function][]*CallEdge
 	implCache map[string][]*ssa.Function
 	loadMemo  map[*ssa.Function]map[string]bool
+	// fieldStoreIdx: "pkg.Type.field" -> values stored into that field anywhere in the module (lazily built)
+	fieldStoreIdx map[string][]ssa.Value
 }
 
 type LoadOpts struct {
